@@ -384,7 +384,7 @@ func randomLexLine(rng *rand.Rand, i int) (string, []byte) {
 func phaseLexer(r *mon.Run, upTo int) {
 	c := &lexChecker{r: r, lx: statsd.VerifNewLexer(0)}
 	rng := r.Rand("lexer")
-	nRandom := r.N(130000, 28000000)
+	nRandom := r.N(130000, 14000000)
 	if upTo >= 0 {
 		nRandom = upTo + 1
 	}
@@ -967,7 +967,7 @@ func phaseDatagrams(r *mon.Run, upTo int) {
 		}
 	}()
 	rng := r.Rand("datagrams")
-	n := r.N(2000, 100000)
+	n := r.N(2000, 60000)
 	if upTo >= 0 {
 		n = upTo + 1
 	}
@@ -1610,7 +1610,7 @@ func (c *httpChecker) bombs(tick func(*replayCase)) {
 func phaseHTTP(r *mon.Run, upTo int) {
 	var c *httpChecker
 	rng := r.Rand("http")
-	n := r.N(20000, 1000000)
+	n := r.N(20000, 600000)
 	if upTo >= 0 {
 		n = upTo + 1
 	}
